@@ -484,7 +484,7 @@ func genGC(cfg simkit.RunConfig, backend string) *Scenario {
 			sc.Net.Plan = map[string]simkit.Fate{}
 		}
 		for i, n := 0, 1+r.Intn(3); i < n; i++ {
-			sc.Net.Plan[fmt.Sprintf("ord:%d:gc+%d", sc.Clients, r.Intn(14))] = pick(r, []simkit.Fate{simkit.TopoSplitAfter, simkit.TopoSplitAfter, simkit.TopoSplit})
+			sc.Net.Plan[fmt.Sprintf("ord:%d:gc+%d", sc.Clients, r.Intn(14))] = pick(r, []simkit.Fate{simkit.TopoSplitAfter, simkit.TopoSplitAfter, simkit.TopoSplit, simkit.TopoMergeAfter, simkit.TopoMergeAfter})
 		}
 	}
 	// topology changes while the GC phase runs (it starts after the writers, ~0.3-1 s)
